@@ -274,7 +274,8 @@ class Result:
         return True
 
     def finish(self):
-        os.makedirs(os.path.join(VERIF, "evidence"), exist_ok=True)
+        evdir = os.environ.get("VERIF_EVIDENCE_DIR") or os.path.join(VERIF, "evidence")
+        os.makedirs(evdir, exist_ok=True)
         os.makedirs(os.path.join(BUILD, "replay"), exist_ok=True)
         lines = []
         for k in self.known:
@@ -289,7 +290,7 @@ class Result:
               "violations": len(self.violations)}
         if self.known:
             ev["coverage"]["known_findings_reported"] = self.known
-        json.dump(ev, open(os.path.join(VERIF, "evidence", f"{self.prop}.json"), "w"), indent=1)
+        json.dump(ev, open(os.path.join(evdir, f"{self.prop}.json"), "w"), indent=1)
         for l in lines:
             print(l, flush=True)
         return 1 if self.violations else 0
